@@ -74,6 +74,11 @@ func tick() error {
 		for _, fc := range conns {
 			if !fc.dead {
 				fc.dead = true
+				// a killed process loses its uncommitted work and all its locks at once. Closing
+				// alone is not enough to emulate that: SQLite keeps a connection with unfinalised
+				// statements (the daemon never closes its prepared statements) alive as a zombie
+				// that still holds its locks, so the open transaction is rolled back first.
+				fc.c.Exec("ROLLBACK", nil)
 				fc.c.Close()
 			}
 		}
